@@ -533,6 +533,7 @@ def oracle(case, results):
     tot = {m['name']: sum(t['a'] for t in m['txns']) for m in ms}
     for i, v in enumerate(case['views']):
         members, total, count = got.get(v['name'], (None, None, None))
+        shadowed = {n for n, _ in case['globals']} | {n for n, _ in v['vars']}
         if members is None:
             bad.append(('view-missing', None, v['name']))
             continue
@@ -550,9 +551,10 @@ def oracle(case, results):
             bad.append(('membership-iff-filter', sig, {'view': v['name'], 'listed': members, 'filter_true_of': expect}))
         if total is None or total != sum(tot[x] for x in members) or count != len(members):
             bad.append(('view-total-is-sum', None, {'view': v['name'], 'total_ticks': total, 'count': count, 'members': members}))
-        if v.get('must_error') and members and names.count(v['name']) == 1:
+        prims = {'category', 'subcategory', 'merchant', 'total', 'months', 'cv', 'payments', 'tags', 'true', 'false'}
+        # (a variable that shadows a primitive can make an ill-typed filter well-typed: then nothing is claimed)
+        if v.get('must_error') and members and names.count(v['name']) == 1 and not (shadowed & prims):
             bad.append(('filter-error-excludes', None, {'view': v['name'], 'listed': members}))
-        shadowed = {n for n, _ in case['globals']} | {n for n, _ in v['vars']}
         if 'probe' in v and not (dup and names.count(v['name']) > 1) and v['probe'][0] not in shadowed:
             for m in ms:
                 if spec_excluded(m):
@@ -915,6 +917,9 @@ def main(tier):
         'the membership theorems are parametric in the filter evaluator (Section variables filter_true / globals_ok): they '
         'hold for CPython\'s evaluator as well as for the modelled one; where the modelled evaluator returns Unmod the '
         'implementation\'s own verdict is used as an oracle table (counted as oracle_pairs)',
+        'ExpressionEvaluator.evaluate re-raises every non-ExpressionError Exception as ExpressionError (modelled by '
+        'ViewEval.wrap; c10_model_run_never_aborts); OCrash stays in the outcome type of the loop so that a tree in which an '
+        'exception escapes again shows up as a broken correspondence and as the violation filter-error-aborts-run',
         'str.lower is modelled for ASCII; generated names, tags, categories are ASCII; years 1000..9999',
         'is_excluded_from_spending is regenerated from classification.py (tools/py2coq.py) on every run',
         'by_merchant construction (grouping of transactions by merchant name, total = sum of effective amounts) is C06\'s; '
@@ -931,7 +936,7 @@ def main(tier):
     if res['hygiene']:
         broken.append({'kind': 'hygiene', 'detail': res['hygiene']})
 
-    n = 420 if tier == 'quick' else 6000
+    n = 800 if tier == 'quick' else 6000
     rnd = random.Random(run.seed * 7919 + 10)
     cases = corpus_cases() + [gen_case(rnd) for _ in range(n)]
     jobs, spans = [], []
